@@ -316,6 +316,20 @@ def simulate_and_toggle(ns, live, model, rng):
         return False
 
 
+def _from(model, name):
+    """names reachable from one object of an abstract model through forward links"""
+    seen, todo = set(), [name]
+    while todo:
+        n = todo.pop()
+        if n in seen or n not in model:
+            continue
+        seen.add(n)
+        todo += list(model[n]["lnk"].values())
+        for l in model[n]["lst"].values():
+            todo += l
+    return seen
+
+
 def edited_events(ns, seeds, n_edits, theorems=(), kinds=None, simulate=False, **gen_kw):
     """lattice systems, built then edited in place: one Model event after each edit (observed on the live system)"""
     events = []
@@ -327,10 +341,19 @@ def edited_events(ns, seeds, n_edits, theorems=(), kinds=None, simulate=False, *
         events.append(ev)
         if ev["raised"] != "none":
             continue
-        for k in range(1, n_edits + 1):
+        k, last, follow_up, refused_obj = 0, n_edits, False, None
+        while k < last:
+            k += 1
             if simulate and simulate_and_toggle(ns, live, model, rng):
                 SKIPPED["simulations"] = SKIPPED.get("simulations", 0) + 1
-            edit, I2 = (lattice.lattice_edit(rng, model, I, kinds) if kinds else lattice.lattice_edit(rng, model, I))
+            if follow_up:       # what a refused edit left behind shows when the load is recomputed: an accepted change of the traffic
+                for _try in range(12):
+                    edit, I2 = lattice.lattice_edit(rng, model, I, ("starts",))
+                    if refused_obj is None or refused_obj in _from(model, edit[1]):
+                        break
+                follow_up = False
+            else:
+                edit, I2 = (lattice.lattice_edit(rng, model, I, kinds) if kinds else lattice.lattice_edit(rng, model, I))
 
             def do(edit=edit, model=model):
                 efx.apply_edit_live(ns, model, live, edit)
@@ -352,6 +375,11 @@ def edited_events(ns, seeds, n_edits, theorems=(), kinds=None, simulate=False, *
                 back["seed"], back["edit"] = seed, ["after-refused"] + list(edit)
                 events.append(back)
                 SKIPPED["refused"] = SKIPPED.get("refused", 0) + 1
+                if last < n_edits + 2:
+                    last += 1
+                    follow_up = True
+                    refused_obj = edit[1] if len(edit) > 1 and isinstance(edit[1], str) and \
+                        model.get(edit[1], {}).get("cls") == "Server" else None
                 continue
             model, I = model2, I2
     return events
